@@ -219,6 +219,16 @@ func (x *Exec) chanName(v ssa.Value) string {
 	if v == nil {
 		return ""
 	}
+	// a channel obtained from a call is named after the callee: <-ctx.Done() is a receive on "Done"
+	if c, ok := v.(*ssa.Call); ok {
+		if c.Call.IsInvoke() {
+			return c.Call.Method.Name()
+		}
+		if sc := c.Call.StaticCallee(); sc != nil {
+			return sc.Name()
+		}
+		return x.chanName(c.Call.Value)
+	}
 	if u, ok := v.(*ssa.UnOp); ok && u.Op == token.MUL {
 		if fa, ok := u.X.(*ssa.FieldAddr); ok {
 			stru := deref(fa.X.Type()).Underlying().(*types.Struct)
